@@ -165,6 +165,39 @@ MUTANTS = [
     m("C11-plu-flags", "C11", "base-case@plu(LinearOperator)", DEC, "P, L, U = Permutation(p), Triangular(L, lower=True), Triangular(U, lower=False)", "P, L, U = Permutation(p), Triangular(L, lower=True), Triangular(U, lower=True)"),
     m("C11-plu-blockdiag-mult", "C11", "plu-roles@plu(BlockDiag)", DEC, "BD = lambda *args: BlockDiag(*args, multiplicities=A.multiplicities)  # noqa", "BD = lambda *args: BlockDiag(*args)  # noqa"),
     m("C11-plu-diag", "C11", "plu-roles@plu(Diagonal|ScalarMul)", DEC, "return cola.ops.I_like(A), S, S", "return cola.ops.I_like(A), A, S"),
+    # ---------------------------------------------------------------- C12
+    m("C12-cap-or", "C12", "loop-cap@cg:loop", CG, "flag = (res_meet) & (k < max_iters)", "flag = (res_meet) | (k < max_iters)"),
+    m("C12-cap-le", "C12", "loop-cap@cg:loop", CG, "flag = (res_meet) & (k < max_iters)", "flag = (res_meet) & (k <= max_iters)"),
+    m("C12-counter-frozen", "C12", "loop-cap@cg:loop", CG, "return (x1, k + 1, r1, p1, alpha, beta, gamma1)", "return (x1, k, r1, p1, alpha, beta, gamma1)"),
+    m("C12-stop-all", "C12", "stopping-test@cg:cond", CG, "res_meet = xnp.any(rs > tol)", "res_meet = xnp.all(rs > tol)"),
+    m("C12-tolerance", "C12", "stopping-test@cg:tolerance", CG, "tol = tol * xnp.norm(r0, axis=-2, keepdims=True) + tol", "tol = tol * xnp.norm(r0, axis=-2, keepdims=True)"),
+    m("C12-scaling-back", "C12", "scaling@cg:scaling", CG, "return state[0] * mult, state[2] * mult, state[1], info", "return state[0], state[2] * mult, state[1], info"),
+    m("C12-axis-dropped", "C12", "column-independence@update_alpha", CG, "denom = xnp.sum(xnp.conj(p) * Ap, axis=-2, keepdims=True)", "denom = xnp.sum(xnp.conj(p) * Ap, keepdims=True)"),
+    m("C12-norm-axis", "C12", "column-independence@take_cg_step", CG, "has_converged = xnp.norm(r0, axis=-2, keepdims=True) < eps", "has_converged = xnp.norm(r0, axis=-1, keepdims=True) < eps"),
+    m("C12-count-fixed-silent", "C12", "", TQ, "            info['iterations'] += 1\n            return cond_fun(state)\n\n        out = while_loop(newcond, body_fun, init_val)",
+      "            return cond_fun(state)\n\n        def newbody(state):\n            info['iterations'] += 1\n            return body_fun(state)\n\n        out = while_loop(newcond, newbody, init_val)", silent=True),
+    # ---------------------------------------------------------------- C14
+    m("C14-no-clip", "C14", "loop-cap@lanczos:clip", LAN, "    max_iters = min(max_iters, A.shape[0])\n    if start_vector is None:\n        key = xnp.PRNGKey(42) if key is None else key\n        start_vector = xnp.randn(A.shape[0]", "    if start_vector is None:\n        key = xnp.PRNGKey(42) if key is None else key\n        start_vector = xnp.randn(A.shape[0]"),
+    m("C14-cap-lt", "C14", "loop-cap@lanczos_fact:loop", LAN, "        is_not_max = i <= max_iters\n        is_large = (subdiag[..., i - 1].real > tol * subdiag[..., 1].real) | (i <= 1)", "        is_not_max = i < max_iters\n        is_large = (subdiag[..., i - 1].real > tol * subdiag[..., 1].real) | (i <= 1)"),
+    m("C14-asymmetric-T", "C14", "symmetric-T@lanczos:Tridiagonal", LAN, "        T = Tridiagonal(alpha, beta, alpha)", "        T = Tridiagonal(alpha, beta, xnp.conj(alpha) * 1)"),
+    m("C14-offdiag-not-norm", "C14", "nonneg-offdiagonal@lanczos_fact:subdiag", LAN, "subdiag = xnp.update_array(subdiag, xnp.norm(V[..., i + 1], axis=-1), ..., i)", "subdiag = xnp.update_array(subdiag, xnp.sum(V[..., i + 1] * V[..., i], axis=-1), ..., i)"),
+    m("C14-start-not-normalised", "C14", "first-column@init_lanczos", LAN, "    rhs = rhs / norm\n    V = xnp.update_array(V, xnp.copy(rhs.T), ..., 1)\n    return V, diag, subdiag, i", "    V = xnp.update_array(V, xnp.copy(rhs.T), ..., 1)\n    return V, diag, subdiag, i"),
+    m("C14-gram-conj-side", "C14", "projection@do_gram", LAN, "aux = xnp.sum(xnp.conj(vec) * xnp.expand(new_vec, -1), axis=-2, keepdims=True)", "aux = xnp.sum(vec * xnp.expand(xnp.conj(new_vec), -1), axis=-2, keepdims=True)"),
+    m("C14-ritz-unpaired", "C14", "ritz-pairs@lanczos_eigs", LAN, "    V = Q @ lazify(eigvectors[:, idx])\n    eigvals = eigvals[..., idx]", "    V = Q @ lazify(eigvectors)\n    eigvals = eigvals[..., idx]"),
+    m("C14-trim-sizes", "C14", "trimming@lanczos:trim", LAN, "alpha, beta, Q = alpha[..., :iters - 1], beta[..., :iters], Q[..., :iters]", "alpha, beta, Q = alpha[..., :iters], beta[..., :iters], Q[..., :iters]"),
+    # ---------------------------------------------------------------- C15
+    m("C15-no-clip", "C15", "loop-cap@arnoldi_fact:clip", ARN, "    xnp = A.xnp\n    max_iters = min(max_iters, A.shape[0])\n\n    def cond_fun(state):\n        _, H, idx, norm = state", "    xnp = A.xnp\n\n    def cond_fun(state):\n        _, H, idx, norm = state"),
+    m("C15-cap-le", "C15", "loop-cap@arnoldi_fact:loop", ARN, "        is_not_max = idx < max_iters\n        is_large = (norm > tol * H[:, 1, 0].real) | (idx <= 0)", "        is_not_max = idx <= max_iters\n        is_large = (norm > tol * H[:, 1, 0].real) | (idx <= 0)"),
+    dict(id="C15-empty-buffer", property="C15", expect="buffers@init_arnoldi", edits=[
+        dict(file=NP, old="def zeros(shape, dtype, device=None):\n    del device\n    return np.zeros(shape=shape, dtype=dtype)", new="def zeros(shape, dtype, device=None):\n    del device\n    return np.zeros(shape=shape, dtype=dtype)\n\n\ndef empty(shape, dtype, device=None):\n    return np.empty(shape=shape, dtype=dtype)"),
+        dict(file=ARN, old="    H = xnp.zeros(shape=(rhs.shape[-1], max_iters + 1, max_iters), dtype=dtype, device=device)\n    Q = xnp.zeros(shape=(rhs.shape[-1], rhs.shape[-2], max_iters + 1), dtype=dtype, device=device)\n    norm = xnp.norm(rhs, axis=-2)",
+             new="    H = xnp.empty(shape=(rhs.shape[-1], max_iters + 1, max_iters), dtype=dtype, device=device)\n    Q = xnp.zeros(shape=(rhs.shape[-1], rhs.shape[-2], max_iters + 1), dtype=dtype, device=device)\n    norm = xnp.norm(rhs, axis=-2)")]),
+    m("C15-floor-tiny", "C15", "normalisation-floor@arnoldi_fact:normalise", ARN, "new_vec /= xnp.clip(norm, a_min=tol / 2.)", "new_vec /= xnp.clip(norm, a_min=xnp.finfo(norm.dtype).tiny)"),
+    m("C15-no-floor", "C15", "normalisation-floor@arnoldi_fact:normalise", ARN, "new_vec /= xnp.clip(norm, a_min=tol / 2.)", "new_vec /= norm"),
+    m("C15-subdiag-not-norm", "C15", "nonneg-subdiagonal@arnoldi_fact:subdiagonal", ARN, "h_vec = xnp.update_array(h_vec, norm[:, 0], ..., idx + 1)", "h_vec = xnp.update_array(h_vec, new_vec[:, 0], ..., idx + 1)"),
+    m("C15-mgs-conj-side", "C15", "projection@", ARN, "angle = xnp.sum(xnp.conj(Q[..., jdx]) * new_vec, axis=-1)", "angle = xnp.sum(Q[..., jdx] * xnp.conj(new_vec), axis=-1)"),
+    m("C15-eigs-trim", "C15", "eigs-pairing@arnoldi_eigs", ARN, "    Q, H = Q[:, :-1], H[:-1]\n    xnp = A.xnp", "    Q, H = Q, H[:-1]\n    xnp = A.xnp"),
+    m("C15-start-not-normalised", "C15", "first-column@init_arnoldi", ARN, "    norm = xnp.norm(rhs, axis=-2)\n    rhs = rhs / norm\n    Q = xnp.update_array(Q, xnp.copy(rhs.T), ..., 0)", "    norm = xnp.norm(rhs, axis=-2)\n    Q = xnp.update_array(Q, xnp.copy(rhs.T), ..., 0)"),
     # ---------------------------------------------------------------- C16
     m("C16-pairing", "C16", "pairing@svd(LinearOperator,int,str,DenseSVD)", SVD, "    idx = A.xnp.argsort(Sigma, axis=-1)\n    return Unitary(Dense(U[:, idx])), Diagonal(Sigma[..., idx]), Unitary(Dense(V[:, idx]))",
       "    idx = A.xnp.argsort(Sigma, axis=-1)\n    idx2 = A.xnp.argsort(-Sigma, axis=-1)\n    return Unitary(Dense(U[:, idx])), Diagonal(Sigma[..., idx2]), Unitary(Dense(V[:, idx]))"),
